@@ -7,8 +7,9 @@ empty or non-empty body), handler behaviours (returns any status, panics, slow),
 every stage, body-decode outcomes and reply-write outcomes.
 -/
 import Teleport.Lemmas.Dispatch
-import Teleport.Lemmas.SrcFlow
+import Teleport.Lemmas.SrcPaths
 import Teleport.Gen.Stages
+import Teleport.Gen.Consts
 namespace Teleport
 namespace C03
 open Dispatch
@@ -252,52 +253,85 @@ example : (handleFrame exCfg {} exFrame (.ret Status.zero { merr := [(106, [101]
 example : (handleFrame exCfg {} { exFrame with mtype := 4 } (.panic [] false) {} (.sent, .sent)).closeRequested = true := by
   decide
 
-/-! ## tie A — where `handleCall` marks the reply as written (`Gen/Stages`)
+/-! ## tie A — where `handleCall` marks the reply as written (`Gen/Stages`, path facts)
 
 `Dispatch.handle` answers a handler panic from the deferred recover of `handleCall` only while nothing
 has been written (`writed` false); a panic AFTER the reply went out (in a `PostWriteReply` plugin) must
 not produce a second REPLY. In the code that is one assignment: `writed = true` between the
-successful `writeReply` and `postWriteReply`. `srcfacts` regenerates the flow of `handleCall`; the
-flag is found structurally (the boolean local that the deferred literal tests negated around its
-`writeReply`), not by name. -/
+successful `writeReply` and `postWriteReply`. `srcfacts` regenerates the set of control-flow PATHS of
+`handleCall` (conditions normalised, helpers inlined: the shape of the `if` does not matter) and the
+paths of its deferred recover; the flag is found structurally (the local that the deferred literal
+tests), not by name. -/
 
 section TieA
-open SrcFlow
+open SrcPaths
 
-def hcFlow : List Ev := Gen.stages_handlerCtx_handleCall
-/-- the statements of `handleCall` itself, in order. -/
-def hcMain : List Ev := mainFlow hcFlow
+def hcPaths : List Path := Gen.spaths_handlerCtx_handleCall
+def hcRecover : List Path := Gen.spaths_handlerCtx_handleCall_recover
 
-def isFirstWrite (e : Ev) : Bool := e.is "call" "writeReply" && e.use == "fail-return" && e.guards.isEmpty
-def isFlagSet (e : Ev) : Bool := e.is "flag" "set"
+def isWrite (e : PEv) : Bool := e.is "call" "writeReply"
+def isWriteOk (e : PEv) : Bool := e.is "call" "writeReply" && e.out == "ok"
+def isFlagSet (e : PEv) : Bool := e.is "flag" "set"
+def isFlagTrue (e : PEv) : Bool := e.is "flag" "set" && e.detail == "true"
+def isPostWrite (e : PEv) : Bool := e.is "stage" "postWriteReply"
 
 /-- **The reply-written flag is set between the successful reply write and the post-write hooks
-    (tie A).** In `handleCall` as it is in the source now: (1) the first, unconditional `writeReply`
-    is tested at once and its failing branch returns; (2) the flag is assigned exactly once, the
-    value `true`, unconditionally, in the function body itself; (3) that assignment comes after the
-    first `writeReply` and before `postWriteReply`; between the two there is nothing but the retry
-    `writeReply` of the failing branch and its `return` — in particular no plugin stage and no handler
-    call runs after a successful write with the flag still false; (4) every `writeReply` of the
-    deferred recover is guarded by the negated flag. Hence a panic raised after the reply was written
-    (a `PostWriteReply` plugin) finds the flag set and writes nothing: at most one REPLY per CALL, as
+    (tie A).** On EVERY control-flow path of `handleCall` as it is in the source now: (1) the flag is
+    only ever assigned `true`; (2) `postWriteReply` runs only after the flag was set, and the flag is
+    set only after a `writeReply` whose status that path found OK; (3) the assignment is the very
+    next tracked event after that successful write — no plugin stage and no handler call runs after a
+    successful write with the flag still false; (4) after the flag is set nothing writes a reply any
+    more; (5) a path on which the first `writeReply` failed never reaches `postWriteReply`; and in the
+    deferred recover (run with a panic pending, nothing known about the locals) every `writeReply`
+    is on a path that found the flag false. Hence a panic raised after the reply was written (a
+    `PostWriteReply` plugin) finds the flag set and writes nothing: at most one REPLY per CALL, as
     `C03_at_most_once` states for the model. Moving the assignment behind `postWriteReply`, dropping
-    it, or dropping the guard in the recover changes the regenerated flow and this theorem no
-    longer checks. -/
+    it, or dropping the test in the recover changes the regenerated paths and this theorem no
+    longer checks; inverting the `if` with swapped branches, renaming, or extracting helpers does not. -/
 theorem C03_writed_before_postwrite :
-    Gen.stages_missing = [] ∧
-    (hcFlow.filter isFlagSet).map (fun e => (e.x, e.guards)) = [("true", [])] ∧
-    (hcMain.filter isFirstWrite).length = 1 ∧
-    ((after isFirstWrite hcMain).bind (upto isFlagSet)).map keys = some ["call:writeReply"] ∧
-    (((after isFirstWrite hcMain).bind (upto isFlagSet)).getD []).all (fun e => !e.guards.isEmpty) = true ∧
-    ((after isFlagSet hcMain).map keys) = some ["stage:postWriteReply"] ∧
-    ((upto isFirstWrite hcMain).map fun l => l.all fun e => !(e.is "stage" "postWriteReply")) = some true ∧
-    (hcFlow.filter fun e => e.deferred && e.is "call" "writeReply").length = 1 ∧
-    (hcFlow.all fun e => !(e.inClosure && e.is "call" "writeReply") || (e.deferred && e.guards.contains "!flag")) = true := by
+    Gen.spaths_handlerCtx_handleCall_missing = [] ∧ Gen.spaths_handlerCtx_handleCall_recover_missing = [] ∧
+    hcPaths.all (fun p => p.all fun e => !isFlagSet e || isFlagTrue e) = true ∧
+    hcPaths.all (fun p => precededBy isFlagTrue isPostWrite p && precededBy isWriteOk isFlagTrue p) = true ∧
+    hcPaths.all (fun p => !(p.any isWriteOk) || (nextAfter isWriteOk p).any isFlagTrue) = true ∧
+    hcPaths.all (fun p => noneAfter isFlagTrue isWrite p) = true ∧
+    hcPaths.all (fun p => noneAfter (fun e => isWrite e && e.out == "fail") (fun e => isPostWrite e || isFlagSet e) p) = true ∧
+    hcPaths.all (fun p => (p.filter isWriteOk).length ≤ 1 && (p.filter isPostWrite).length ≤ 1) = true ∧
+    hcPaths.any (fun p => p.any isPostWrite) = true ∧
+    hcRecover.all (fun p => precededBy (fun e => e.is "flag" "is" && e.out == "false") isWrite p) = true ∧
+    hcRecover.all (fun p => !(p.any fun e => e.is "flag" "is" && e.out == "true") || !(p.any isWrite)) = true ∧
+    hcRecover.any (fun p => p.any isWrite) = true := by
   decide
 
-/-- non-vacuity: the flow has the three landmarks. -/
-example : (keys hcMain).filter (fun k => k == "call:writeReply" || k == "flag:set" || k == "stage:postWriteReply") =
-    ["call:writeReply", "call:writeReply", "flag:set", "stage:postWriteReply"] := by decide
+/-- non-vacuity: the successful path has the three landmarks in this order. -/
+example : hcPaths.any (fun p => (tags p).filter (fun k => k == "call:writeReply=ok" || k == "flag:set" || k == "stage:postWriteReply") ==
+    ["call:writeReply=ok", "flag:set", "stage:postWriteReply"]) = true := by decide
+
+
+/-! ### tie A — message type constants (fact group `Consts`) -/
+
+/-- what `binding` does with a frame of message type `t`: the status codes it leaves for a method
+    that is registered as a CALL route only and for one that is registered as a PUSH route only. -/
+def typeProbe (t : Nat) : Int × Int :=
+  let cfg : Cfg := { calls := [[47, 99]], pushes := [[47, 112]] }
+  let fr (m : Bytes) : Frame := { mtype := t.toUInt8, seq := 1, method := m, codec := 0, bodyEmpty := true }
+  ((binding cfg (fr [47, 99]) {}).stat.code, (binding cfg (fr [47, 112]) {}).stat.code)
+
+/-- **C03 tie A, message types**: the model's dispatch constants are the values message.go declares
+    NOW, and — running `binding` on every declared type value — exactly `TypeCall` reaches the CALL
+    table, exactly `TypePush` the PUSH table, `TypeReply` neither (no status), every other declared
+    type (undefined, the two AUTH types) is answered with the 405 sentinel. Changing the value of
+    `TypePush` (or of any other type constant) makes this stop building. -/
+theorem C03_consts_msg_types :
+    Gen.consts_missing = [] ∧
+    Gen.consts_msg_types.lookup "TypeCall" = some tCall.toNat ∧
+    Gen.consts_msg_types.lookup "TypeReply" = some tReply.toNat ∧
+    Gen.consts_msg_types.lookup "TypePush" = some tPush.toNat ∧
+    Gen.consts_msg_types.map (fun p => (p.1, typeProbe p.2)) =
+      [("TypeAuthCall", (405, 405)), ("TypeAuthReply", (405, 405)), ("TypeCall", (0, 404)),
+       ("TypePush", (404, 0)), ("TypeReply", (0, 0)), ("TypeUndefined", (405, 405))] ∧
+    (Gen.consts_msg_types.all fun p => p.2 < 256) = true := by
+  decide
+
 
 end TieA
 
